@@ -315,7 +315,7 @@ def step(ms, op):
         return ns, ex
     if k in ("cleanup", "verify"):
         return ns, ex
-    if k == "load":
+    if k in ("load", "copyfrom"):
         for path, term in op[1]:
             tid = ("E", path)
             if tid in ns.tasks:
